@@ -127,7 +127,7 @@ def move_v(chk, fx):
             chk.violation("MOVE-V", A.site(f), "MOVE-V:term_value::operator VT&&", "the rvalue conversion returns %s (a copy)" % rets)
             break
     for q, want in (("ctpg::stdex::cvector::emplace_back", r"\(the_data\[current_size\+\+\] = move\(\$0\)\)"),
-                    ("ctpg::stdex::cvector::erase", r"\(\*\?\w+ = move\(\*\?\w+\)\)")):
+                    ("ctpg::stdex::cvector::erase", r"\(\*.+ = move\(\*.+\)\)")):
         f = fx.need(q)[0]
         cn = Canon(f)
         assigns = [cn.c(n) for n in walk(f.body) if (n.get("k") in ("BinaryOperator",) and n.get("op") == "=") or
